@@ -178,8 +178,21 @@ def _dispatch_shape(f: FuncInfo, var: str):
     for s in f.node.body:
         if isinstance(s, ast.If) and isinstance(s.test, ast.Call) and isinstance(s.test.func, ast.Name) and s.test.func.id == "isinstance":
             a = s.test.args
-            if isinstance(a[0], ast.Name) and a[0].id == var and len(s.body) == 1 and isinstance(s.body[0], ast.Return):
-                out.append((src(a[1]), s.body[0].value, s))
+            if isinstance(a[0], ast.Name) and a[0].id == var:
+                # the branch's result: its one return value (guards that raise and try/finally around it do not change the result)
+                rets = [x for st in s.body for x in ast.walk(st) if isinstance(x, ast.Return) and x.value is not None]
+                vals = []
+                for x in rets:
+                    v = x.value
+                    if isinstance(v, ast.Name):
+                        defs = [y.value for st in s.body for y in ast.walk(st) if isinstance(y, ast.Assign) and len(y.targets) == 1 and isinstance(y.targets[0], ast.Name) and y.targets[0].id == v.id]
+                        if len(defs) == 1:
+                            v = defs[0]
+                    vals.append(v)
+                falls_through = not any(isinstance(st, (ast.Return, ast.Raise)) for st in s.body[-1:]) and not (isinstance(s.body[-1], ast.Try) and (
+                    any(isinstance(y, (ast.Return, ast.Raise)) for y in s.body[-1].body[-1:])))
+                if len({src(v) for v in vals}) == 1 and not falls_through:
+                    out.append((src(a[1]), vals[0], s))
     return out
 
 
@@ -349,5 +362,55 @@ def registry_exact(prog: Program, r: RuleResult):
             "a getter reads a different table than register wrote")
 
 
+def js_pure(prog: Program) -> RuleResult:
+    """The round trip is a function of the value: what to_json / from_json return for a value may not depend on earlier calls.
+    State shared between calls (a module-level container the writer adds to) is accepted only if every addition is undone on every
+    exit - i.e. in a `finally` - otherwise a call that raised half-way poisons the later ones."""
+    from ..effects import MUT_ADD, MUT_DEL
+    from ..cfg import CFG
+
+    r = RuleResult("JS-PURE", "the writer and the reader keep no state between calls", floor=2)
+    mod = prog.module(MODQ)
+    mod_globals = set(mod.globals_.keys())
+    entry = [prog.func(MODQ + ".to_json"), prog.func(MODQ + ".from_json"), prog.method(prog.cls(MODQ + ".SubclassJSONSerializer").qual, "from_json", inherited=False),
+             prog.method(prog.cls(MODQ + ".SubclassJSONSerializer").qual, "to_json", inherited=False)]
+    for f in entry:
+        local_names = {a.arg for a in f.node.args.args + f.node.args.kwonlyargs} | {t.id for x in walk_local(f.node) if isinstance(x, ast.Assign) for t in x.targets if isinstance(t, ast.Name)}
+        declared_global = {n for x in walk_local(f.node) if isinstance(x, ast.Global) for n in x.names}
+        adds, dels = [], []
+        for c in calls_in(f.node):
+            if isinstance(c.func, ast.Attribute) and isinstance(c.func.value, ast.Name) and c.func.value.id in mod_globals and c.func.value.id not in (local_names - declared_global):
+                if c.func.attr in MUT_ADD:
+                    adds.append(c)
+                elif c.func.attr in MUT_DEL:
+                    dels.append(c)
+        for x in walk_local(f.node):
+            if isinstance(x, (ast.Assign, ast.AugAssign)):
+                for t in (x.targets if isinstance(x, ast.Assign) else [x.target]):
+                    if isinstance(t, ast.Subscript) and isinstance(t.value, ast.Name) and t.value.id in mod_globals and t.value.id not in (local_names - declared_global):
+                        adds.append(x)
+                    if isinstance(t, ast.Name) and t.id in declared_global:
+                        adds.append(x)
+        bad = None
+        for a in adds:
+            # undone in a finally that encloses everything after the addition?
+            nm = src(a.func.value) if isinstance(a, ast.Call) else None
+            undone = False
+            for tr in [x for x in walk_local(f.node) if isinstance(x, ast.Try) and x.finalbody]:
+                fin_calls = [c for st in tr.finalbody for c in calls_in(st)]
+                if any(isinstance(c.func, ast.Attribute) and c.func.attr in MUT_DEL and src(c.func.value) == nm for c in fin_calls):
+                    # the addition lies immediately before the try or is its first statement
+                    body_nodes = set(id(y) for st in tr.body for y in ast.walk(st))
+                    if id(a) in body_nodes or getattr(a, "lineno", 0) < tr.lineno:
+                        undone = True
+            if not undone:
+                bad = bad or a
+        r.check(bad is None, f"{f.short}#no-state-between-calls", site(f, bad) if bad is not None else site(f), src(bad)[:80] if bad is not None else f"{len(adds)} writes to module state",
+                "no module-level state is written (or every write is undone in a finally)",
+                f"`{src(bad)[:60] if bad is not None else ''}` records something in module-level state that outlives the call when an exception leaves it: a value whose serialisation was "
+                "rejected once (an item of an unregistered type) is rejected again after it has been repaired, and an unrelated container that reuses the id is rejected too")
+    return r
+
+
 def run(prog: Program, tier: str) -> List[RuleResult]:
-    return [js_tag(prog, tier), js_agree(prog)]
+    return [js_tag(prog, tier), js_agree(prog), js_pure(prog)]
